@@ -18,9 +18,13 @@ def fakeTracking (refid : Nat) : Tracking :=
 
 namespace C13
 
-/-- the bound of the first trusted record: the report's bound, plus the PHC bound exactly when the configured id is the report's -/
-def phcExpected (cfg : List Nat) (chrony : Nat) (phc : Int) : Option Int :=
-  (refidOf cfg).map fun r => boundF (fakeTracking chrony) + (if refMatches (some r) (fakeTracking chrony) then phc else 0)
+/-- the bound of the first trusted record: the report's bound, plus the PHC bound exactly when the configured id is the report's.
+    `phc = none`: the attribute does not parse as an integer — when the PHC is the reference the report is not used as a measurement
+    (the poller thread panics and the daemon stops), so there is no trusted record (`none`) -/
+def phcExpected (cfg : List Nat) (chrony : Nat) (phc : Option Int) : Option Int :=
+  (refidOf cfg).bind fun r =>
+    if refMatches (some r) (fakeTracking chrony) then phc.map (boundF (fakeTracking chrony) + ·)
+    else some (boundF (fakeTracking chrony))
 
 /-- the id with the missing characters as trailing zero bytes (chronyd's own packing of a short `refid` directive) -/
 def refidLeft (bs : List Nat) : Nat := (bs ++ List.replicate (4 - bs.length) 0).foldl (fun a b => a * 256 + b) 0
@@ -35,19 +39,30 @@ def idMatches (cfg : List Nat) (r chrony : Nat) : Option Bool :=
 /-- oracle of a `phcrun` line on what the daemon published (`none` = it published nothing trusted / exited).  A configured id that
     is no reference id at all is not constrained.  Otherwise the record must be Synchronized and its bound must be the C07 bound WITH
     the PHC value if the ids match, and the C07 bound WITHOUT it if they do not (`C07.Holds` is two-sided, so for a PHC value above
-    the rounding slack the two are exclusive) -/
-def HoldsPhcRun (cfg : List Nat) (chrony : Nat) (phc : Int) (pub : Option (Int × Int)) : Bool :=
+    the rounding slack the two are exclusive).  `phc = none`: the attribute is not a number -/
+def HoldsPhcRun (cfg : List Nat) (chrony : Nat) (phc : Option Int) (pub : Option (Int × Int)) : Bool :=
   match refidOf cfg with
   | none => true
   | some r =>
-    match pub with
-    | some (b, st) =>
-      st == 1 &&
+    let plain : Bool := match pub with
+      | some (b, st) => st == 1 && C07.Holds (fakeTracking chrony) 0 b
+      | none => false
+    match phc with
+    | some p =>
+      (match pub with
+       | some (b, st) =>
+         st == 1 &&
+         (match idMatches cfg r chrony with
+          | some true => C07.Holds (fakeTracking chrony) p b
+          | some false => C07.Holds (fakeTracking chrony) 0 b
+          | none => C07.Holds (fakeTracking chrony) p b || C07.Holds (fakeTracking chrony) 0 b)
+       | none => false)
+    | none =>
+      -- the attribute cannot be read as a number: with the PHC as reference the report must not become a measurement
       (match idMatches cfg r chrony with
-       | some true => C07.Holds (fakeTracking chrony) phc b
-       | some false => C07.Holds (fakeTracking chrony) 0 b
-       | none => C07.Holds (fakeTracking chrony) phc b || C07.Holds (fakeTracking chrony) 0 b)
-    | none => false
+       | some true => pub.isNone
+       | some false => plain
+       | none => pub.isNone || plain)
 
 end C13
 end ClockBound
